@@ -18,7 +18,7 @@
                                 and giving it back at most once, is a disciplined trace -- hence
                                 (Proofs/PoolTraceP.v) exclusive after every prefix *)
 From Coq Require Import ZArith List Bool Lia String.
-From Verif Require Import Base.Wrap Base.Wire Spec.PoolSpec Model.PoolTrace Model.PoolSites Gen.GenSyncPools Proofs.PoolTraceP.
+From Verif Require Import Base.Wrap Base.Wire Spec.PoolTraceSpec Model.PoolTrace Model.PoolSites Gen.GenSyncPools Proofs.PoolTraceP.
 Import ListNotations.
 Local Open Scope Z_scope.
 
